@@ -104,6 +104,7 @@ class World:
         for i, c in enumerate(job['classof']):
             self.obj[i + 1] = self.cls[c]()
         self.watched = {}
+        self.held = {}
 
     def watch(self):
         """Specifications in use are WATCHED: lookup caches that were asked
@@ -188,7 +189,10 @@ class World:
         elif op == 'superQuery':
             o = [x for i, x in self.obj.items()
                  if job['classof'][i - 1] == act['t']][0]
-            providedBy(super(self.cls[act['c']], o))
+            # the specification handed out is kept: it is a live
+            # specification and must go on following the classes after C
+            self.held[(act['c'], act['t'])] = providedBy(
+                super(self.cls[act['c']], o))
         else:
             raise ValueError(op)
 
@@ -263,6 +267,12 @@ class World:
             own = self.cls[t]()
             implementer(self.iface[max(self.iface)])(own)
             cands.append((0, own))
+            held = self.held.get((c, t))
+            if held is not None:
+                self.within(self.idset(held.flattened()), s['must'],
+                            s['may'], ctx,
+                            'the specification providedBy(super(K%d, <K%d>)) '
+                            'returned EARLIER, asked now' % (c, t))
             for o, ob in cands:
                 sup = super(self.cls[c], ob)
                 got = self.idset(providedBy(sup).flattened())
